@@ -56,7 +56,7 @@ func (c *allOfConstraintCompiler) processSchema(schem *schema.Schema) {
 // processNode recursively searches and processing nodes for the "allOf" rule.
 func (c *allOfConstraintCompiler) processNode(node schema.Node) {
 	if allOf := node.Constraint(constraint.AllOfConstraintType); allOf != nil {
-		c.extend(node, allOf.(*constraint.AllOf).SchemaNames())
+		c.extend(node, allOf.(*constraint.AllOf))
 		node.DeleteConstraint(constraint.AllOfConstraintType)
 	}
 
@@ -67,15 +67,21 @@ func (c *allOfConstraintCompiler) processNode(node schema.Node) {
 	}
 }
 
-func (c *allOfConstraintCompiler) extend(node schema.Node, schemaNames []string) {
+func (c *allOfConstraintCompiler) extend(node schema.Node, allOf *constraint.AllOf) {
 	defer lexeme.CatchLexEventError(node.BasisLexEventOfSchemaForNode())
 
+	schemaNames := allOf.SchemaNames()
 	if len(schemaNames) == 0 {
 		panic(errors.ErrTypeNameNotFoundInAllOfRule)
 	}
 
-	for _, name := range schemaNames {
+	// The node may belong to a user type which was added to several root schemas.
+	// If one of the steps fails, the next schema which compiles this type has to
+	// get the same error. So the rule keeps only the names which are not applied
+	// yet, and a step changes nothing when it fails (see extendWith).
+	for _, name := range append([]string(nil), schemaNames...) {
 		c.extendWith(node, name)
+		allOf.Done(name)
 	}
 }
 
@@ -103,6 +109,7 @@ func (c *allOfConstraintCompiler) extendWith(node schema.Node, name string) {
 		panic(errors.Format(errors.ErrUnexpectedConstraint, constraint.AllOfConstraintType.String(), node.Type().String())) //nolint:lll
 	}
 
+	var inheritedAdditionalProperties *constraint.AdditionalProperties
 	if fromAdditionalProperties := fromObject.Constraint(constraint.AdditionalPropertiesConstraintType); fromAdditionalProperties != nil { //nolint:lll
 		fromAdditionalProperties := fromAdditionalProperties.(*constraint.AdditionalProperties)                                          //nolint:errcheck // We're sure about this type.
 		if toAdditionalProperties := toObject.Constraint(constraint.AdditionalPropertiesConstraintType); toAdditionalProperties != nil { //nolint:lll
@@ -111,8 +118,20 @@ func (c *allOfConstraintCompiler) extendWith(node schema.Node, name string) {
 				panic(errors.ErrConflictAdditionalProperties)
 			}
 		} else {
-			toObject.AddConstraint(fromAdditionalProperties)
+			inheritedAdditionalProperties = fromAdditionalProperties
 		}
+	}
+
+	// Find duplicate keys before the node is changed.
+	for i := range fromObject.Children() {
+		key := fromObject.Key(i)
+		if _, ok := toObject.Keys().Get(key.Key, key.IsShortcut); ok {
+			panic(errors.Format(errors.ErrDuplicateKeysInSchema, key.Key))
+		}
+	}
+
+	if inheritedAdditionalProperties != nil {
+		toObject.AddConstraint(inheritedAdditionalProperties)
 	}
 
 	for i, childNode := range fromObject.Children() {
